@@ -1,4 +1,10 @@
 import AFModel.Ident
+import AFModel.IdentComp
+import AFProofs.Lemmas.IdentComp
+import AFModel.IdentJoin
+import AFProofs.Lemmas.IdentJoin
+import AFModel.IdentSearch
+import AFProofs.Lemmas.IdentSearch
 
 /-!
 # C07 — the fit identifier is a stable, sensitive function of what is fitted
@@ -156,5 +162,314 @@ example : tokens modelM = ["Model", "cls", "vlib.P2", "a", "UniformPrior", "lowe
   simp [modelM, prior01, tokens, tokensFields, keepField, skipKey]
 example : (Step.attr "Model" true [] none [("cls", .cls "vlib.P2")] "a" [("b", prior01)]).visible := by
   simp [Step.visible, keepField, skipKey]
+
+/-! ## the identifier as a function of the composition (`AFModel/IdentComp.lean`)
+
+`reflect t` is the `__dict__` graph of the real model objects of composition `t` (internal ids, labels,
+assertions, `_left` / `_right`, frozen caches included), `ctokens t` the closed form that never looks at
+`Meta`. The driver executes both on every generated model and the harness compares both with
+`Identifier(model).hash_list`. -/
+
+open AF.IdentComp
+
+/-- **Closed form.** The tokens of the reflected object graph are a function of the composition alone. -/
+theorem tokens_reflect_closed_form (t : CNode) : tokens (reflect t) = ctokens t := tokens_reflect t
+
+/-- **Stability.** Whatever is done to the internal ids, labels and assertions of every object of a
+composition — by any function, not only injective ones — the tokens stay the same. -/
+theorem tokens_ignore_meta (f : Meta → Meta) (t : CNode) :
+    tokens (reflect (t.mapMeta f)) = tokens (reflect t) := by
+  rw [tokens_reflect, tokens_reflect, ctokens_mapMeta]
+
+/-- renaming of internal ids: creation order, id offsets of another process, copies -/
+theorem tokens_rename_ids (σ : Nat → Nat) (t : CNode) :
+    tokens (reflect (t.renameIds σ)) = tokens (reflect t) := tokens_ignore_meta _ t
+
+theorem tokens_relabel (f : Option String → Option String) (t : CNode) :
+    tokens (reflect (t.relabel f)) = tokens (reflect t) := tokens_ignore_meta _ t
+
+/-- assertions attached to any component never enter the identifier -/
+theorem tokens_ignore_assertions (f : List String → List String) (t : CNode) :
+    tokens (reflect (t.setAsserts f)) = tokens (reflect t) := tokens_ignore_meta _ t
+
+/-- the whole fit `[search, model(, tag)]` likewise -/
+theorem fit_ignores_meta (f : Meta → Meta) (s : PyVal) (t : CNode) (tag : Option String) :
+    tokens (fitVal s (t.mapMeta f) tag) = tokens (fitVal s t tag) := by
+  simp only [fitVal, tokens, tokensList, tokens_ignore_meta]
+
+/-- **Sensitivity over compositions.** Replacing the component at any visible place of ANY composition
+(any depth: attributes of models, collections, tuples, arrays, fixed instances, operands of arithmetic
+priors, list elements) by one with different tokens changes the tokens of the whole. -/
+theorem comp_plug_sensitive : ∀ (ctx : List CStep), (∀ s ∈ ctx, s.visible) → ∀ (v w : CNode),
+    tokens (reflect v) ≠ tokens (reflect w) → tokens (reflect (cplug ctx v)) ≠ tokens (reflect (cplug ctx w))
+  | [], _, _, _, h => h
+  | s :: rest, hv, v, w, h =>
+    comp_plug_sensitive rest (fun t ht => hv t (List.mem_cons_of_mem _ ht)) _ _ (by
+      rw [tokens_reflect, tokens_reflect] at h ⊢
+      exact cstep_sensitive s (hv s (List.mem_cons_self ..)) v w h)
+
+/-- … and of the fit it belongs to (same search, same tag) -/
+theorem fit_model_sensitive (s : PyVal) (t u : CNode) (tag : Option String)
+    (h : tokens (reflect t) ≠ tokens (reflect u)) : tokens (fitVal s t tag) ≠ tokens (fitVal s u tag) := by
+  simp only [fitVal, tokens, tokensList, ne_eq]
+  intro he
+  exact h (List.append_cancel_right (List.append_cancel_left he))
+
+/-- a different unique tag (same search and model) -/
+theorem fit_tag_sensitive (s : PyVal) (t : CNode) (a b : String) (h : a ≠ b) :
+    tokens (fitVal s t (some a)) ≠ tokens (fitVal s t (some b)) := by
+  simp only [fitVal, tokens, tokensList, ne_eq, List.append_nil]
+  intro he
+  have h1 := List.append_cancel_left (List.append_cancel_left he)
+  simp only [List.cons.injEq, and_true] at h1
+  exact h h1
+
+/-- a tag against no tag -/
+theorem fit_tag_presence_sensitive (s : PyVal) (t : CNode) (a : String) :
+    tokens (fitVal s t (some a)) ≠ tokens (fitVal s t none) := by
+  simp only [fitVal, tokens, tokensList, ne_eq, List.append_nil]
+  intro he
+  have h1 := List.append_cancel_left he
+  have h2 := congrArg List.length h1
+  simp at h2
+
+/-! ### leaves: what differs between two components -/
+
+theorem kind_className_injective : ∀ (k j : PriorKind), k.className = j.className → k = j := by
+  intro k j; cases k <;> cases j <;> simp [PriorKind.className]
+
+/-- the prior type -/
+theorem prior_kind_sensitive (m n : Meta) (k j : PriorKind) (lo hi mean sigma lo2 hi2 mean2 sigma2 : UInt64) (h : k ≠ j) :
+    tokens (reflect (.prior m k lo hi mean sigma)) ≠ tokens (reflect (.prior n j lo2 hi2 mean2 sigma2)) := by
+  rw [tokens_reflect, tokens_reflect]
+  simp only [ctokens, ne_eq, List.cons.injEq, not_and]
+  intro hc
+  exact absurd (kind_className_injective k j hc) h
+
+/-- the lower limit of a prior (beyond the 1e-8 quantisation: different float tokens) -/
+theorem prior_lower_sensitive (m n : Meta) (k : PriorKind) (lo lo2 hi mean sigma : UInt64)
+    (h : floatToken lo ≠ floatToken lo2) :
+    tokens (reflect (.prior m k lo hi mean sigma)) ≠ tokens (reflect (.prior n k lo2 hi mean sigma)) := by
+  rw [tokens_reflect, tokens_reflect]
+  simp [ctokens, priorTokens, h]
+
+theorem prior_upper_sensitive (m n : Meta) (k : PriorKind) (lo hi hi2 mean sigma : UInt64)
+    (h : floatToken hi ≠ floatToken hi2) :
+    tokens (reflect (.prior m k lo hi mean sigma)) ≠ tokens (reflect (.prior n k lo hi2 mean sigma)) := by
+  rw [tokens_reflect, tokens_reflect]
+  simp [ctokens, priorTokens, h]
+
+theorem prior_mean_sensitive (m n : Meta) (k : PriorKind) (lo hi mean mean2 sigma : UInt64)
+    (hk : k.hasMeanSigma = true) (h : floatToken mean ≠ floatToken mean2) :
+    tokens (reflect (.prior m k lo hi mean sigma)) ≠ tokens (reflect (.prior n k lo hi mean2 sigma)) := by
+  rw [tokens_reflect, tokens_reflect]
+  simp [ctokens, priorTokens, hk, h]
+
+theorem prior_sigma_sensitive (m n : Meta) (k : PriorKind) (lo hi mean sigma sigma2 : UInt64)
+    (hk : k.hasMeanSigma = true) (h : floatToken sigma ≠ floatToken sigma2) :
+    tokens (reflect (.prior m k lo hi mean sigma)) ≠ tokens (reflect (.prior n k lo hi mean sigma2)) := by
+  rw [tokens_reflect, tokens_reflect]
+  simp [ctokens, priorTokens, hk, h]
+
+/-- a fixed value (beyond the 1e-8 quantisation) -/
+theorem const_sensitive (a b : UInt64) (h : floatToken a ≠ floatToken b) :
+    tokens (reflect (.flt a)) ≠ tokens (reflect (.flt b)) := by
+  rw [tokens_reflect, tokens_reflect]
+  simpa [ctokens] using h
+
+/-- a prior against a fixed value at the same place -/
+theorem prior_vs_const_sensitive (m : Meta) (k : PriorKind) (lo hi mean sigma a : UInt64) :
+    tokens (reflect (.prior m k lo hi mean sigma)) ≠ tokens (reflect (.flt a)) := by
+  rw [tokens_reflect, tokens_reflect]
+  intro he
+  have := congrArg List.length he
+  cases hk : k.hasMeanSigma <;> simp [ctokens, priorTokens, hk] at this
+
+/-- the class of a component -/
+theorem model_class_sensitive (m n : Meta) (p q : String) (attrs : List (String × CNode)) (h : p ≠ q) :
+    tokens (reflect (.model m p attrs)) ≠ tokens (reflect (.model n q attrs)) := by
+  rw [tokens_reflect, tokens_reflect]
+  simp [ctokens, h]
+
+/-- the name of a parameter / component of a model … -/
+theorem model_attr_name_sensitive (m n : Meta) (p : String) (pre post : List (String × CNode)) (k j : String) (v : CNode)
+    (hk : skipKey k = false) (hj : skipKey j = false) (h : k ≠ j) :
+    tokens (reflect (.model m p (pre ++ (k, v) :: post))) ≠ tokens (reflect (.model n p (pre ++ (j, v) :: post))) := by
+  rw [tokens_reflect, tokens_reflect]
+  simp only [ctokens, ne_eq, List.cons.injEq, true_and]
+  exact cattrs_name_sensitive _ pre post k j v rfl hk rfl hj h
+
+/-- … and of a collection -/
+theorem coll_attr_name_sensitive (m n : Meta) (i : Nat) (pre post : List (String × CNode)) (k j : String) (v : CNode)
+    (hk : skipKey k = false) (hj : skipKey j = false) (h : k ≠ j) :
+    tokens (reflect (.coll m i (pre ++ (k, v) :: post))) ≠ tokens (reflect (.coll n i (pre ++ (j, v) :: post))) := by
+  rw [tokens_reflect, tokens_reflect]
+  simp only [ctokens, ne_eq, List.cons.injEq, true_and]
+  exact cattrs_name_sensitive _ pre post k j v rfl hk rfl hj h
+
+/-- the arithmetic operation of a compound prior -/
+theorem arith_op_sensitive (m n : Meta) (op op2 : BinOp) (ln rn : String) (l r : CNode)
+    (h : op.className ≠ op2.className) :
+    tokens (reflect (.arith m op ln rn l r)) ≠ tokens (reflect (.arith n op2 ln rn l r)) := by
+  rw [tokens_reflect, tokens_reflect]
+  simp [ctokens, h]
+
+/-! ### non-vacuity, and the recorded blind spots restated on compositions -/
+
+def m0 : Meta := ⟨0, none, []⟩
+def m1 : Meta := ⟨1, some "sigma", ["a < b"]⟩
+def u01 (m : Meta) : CNode := .prior m .uniform 0 0x3ff0000000000000 0 0
+/-- `Collection(g=Model(P2, a=U(0,1), b=U(0,1)), k=2.0)` with two independent priors -/
+def compIndep : CNode :=
+  .coll ⟨3, none, []⟩ 0 [("g", .model ⟨2, some "g", ["a < b"]⟩ "vlib.P2" [("a", u01 m0), ("b", u01 m1)]), ("k", .flt 0x4000000000000000)]
+
+example : ctokens compIndep =
+    ["Collection", "item_number", "0", "g", "Model", "cls", "vlib.P2", "a", "UniformPrior", "lower_limit", floatToken 0,
+      "upper_limit", floatToken 0x3ff0000000000000, "b", "UniformPrior", "lower_limit", floatToken 0, "upper_limit",
+      floatToken 0x3ff0000000000000, "k", floatToken 0x4000000000000000] := by
+  have h0 : Int.repr 0 = "0" := by decide
+  simp [compIndep, u01, ctokens, ctokensAttrs, priorTokens, PriorKind.className, PriorKind.hasMeanSigma, skipKey, h0]
+
+/-- the place `g.b` of `compIndep` as a context: both steps are visible, `comp_plug_sensitive` applies -/
+def ctxGB : List CStep :=
+  [.modelAttr ⟨2, some "g", []⟩ "vlib.P2" [("a", u01 m0)] "b" [],
+   .collAttr ⟨3, none, []⟩ 0 [] "g" [("k", .flt 0x4000000000000000)]]
+example : ∀ s ∈ ctxGB, s.visible := by
+  intro s hs
+  simp only [ctxGB, List.mem_cons, List.mem_nil_iff, or_false] at hs
+  rcases hs with rfl | rfl <;> simp [CStep.visible, skipKey]
+example : (compIndep.renameIds (· + 40)).priorIds = [40, 41] := by
+  simp [compIndep, u01, m0, m1, CNode.renameIds, CNode.mapMeta, mapMetaAttrs, CNode.priorIds, priorIdsAttrs]
+example : PriorKind.uniform ≠ PriorKind.logUniform := by decide
+example : PriorKind.gaussian.hasMeanSigma = true := rfl
+
+/-- **Recorded blind spot (known finding C07-sharing-blind), on compositions.** `tokens_rename_ids`
+holds for every map of ids, also one that merges two priors into one: a composition with two
+independent equal priors (2 parameters) and the one where both places hold the same prior
+(1 parameter) have the same tokens. The property's clause "differs whenever the sharing pattern
+differs" is refuted by this witness; the stable half (injective renamings) is `tokens_rename_ids`. -/
+theorem sharing_sensitive_refuted :
+    ∃ t u : CNode, t.priorIds = [0, 1] ∧ u.priorIds = [0, 0] ∧ tokens (reflect t) = tokens (reflect u) := by
+  refine ⟨compIndep, compIndep.renameIds (fun _ => 0), ?_, ?_, (tokens_rename_ids _ _).symm⟩ <;>
+    simp [compIndep, u01, m0, m1, CNode.renameIds, CNode.mapMeta, mapMetaAttrs, CNode.priorIds, priorIdsAttrs]
+
+/-- **Recorded over-sensitivity (known findings C07-reload-arith-names / caller variable names), on
+compositions.** The names under which a compound prior stores its operands are tokens: the same
+arithmetic with other operand names (another caller variable, or `left_` / `right_` after a reload)
+has other tokens. -/
+theorem arith_operand_names_enter_refuted (m : Meta) (op : BinOp) (ln ln2 rn : String) (l r : CNode)
+    (h1 : ln ≠ rn) (h2 : ln2 ≠ rn) (hs : skipKey ln = false) (hs2 : skipKey ln2 = false) (h : ln ≠ ln2) :
+    tokens (reflect (.arith m op ln rn l r)) ≠ tokens (reflect (.arith m op ln2 rn l r)) := by
+  rw [tokens_reflect, tokens_reflect]
+  simp [ctokens, h1, h2, hs, hs2, h]
+
+example : skipKey "alpha" = false ∧ skipKey "left_" = false ∧ "alpha" ≠ "left_" ∧ "alpha" ≠ "right_" := by
+  simp [skipKey]
+
+/-! ## the text that is hashed: `".".join(hash_list)` (`AFModel/IdentJoin.lean`) -/
+
+open AF.IdentJoin
+
+/-- **What the join forgets, exactly.** Two non-empty token lists are joined to the same text (and so
+get the same md5) if and only if they coincide after every token is cut at its dots. -/
+theorem join_eq_iff_pieces (l m : List String) (hl : l ≠ []) (hm : m ≠ []) :
+    joinTokens l = joinTokens m ↔ tokenPieces l = tokenPieces m := by
+  have hl2 : l.map String.toList ≠ [] := by simpa using hl
+  have hm2 : m.map String.toList ≠ [] := by simpa using hm
+  rw [← String.toList_inj, joinTokens_toList, joinTokens_toList, joinChars_eq_iff _ _ hl2 hm2]
+  constructor
+  · intro h; simp only [tokenPieces, h]
+  · intro h; exact map_ofList_injective _ _ h
+
+/-- on token lists without dots inside tokens the join is injective -/
+theorem join_injective_on_dotfree (l m : List String) (hl : l ≠ []) (hm : m ≠ [])
+    (dl : ∀ t ∈ l, dotFree t.toList = true) (dm : ∀ t ∈ m, dotFree t.toList = true)
+    (h : joinTokens l = joinTokens m) : l = m := by
+  have hl2 : l.map String.toList ≠ [] := by simpa using hl
+  have hm2 : m.map String.toList ≠ [] := by simpa using hm
+  rw [← String.toList_inj, joinTokens_toList, joinTokens_toList, joinChars_eq_iff _ _ hl2 hm2] at h
+  rw [piecesOfTokens_dotFree, piecesOfTokens_dotFree] at h
+  · exact map_toList_injective l m h
+  · intro t ht; obtain ⟨u, hu, rfl⟩ := List.mem_map.mp ht; exact dm u hu
+  · intro t ht; obtain ⟨u, hu, rfl⟩ := List.mem_map.mp ht; exact dl u hu
+
+/-- merging two neighbouring tokens into one with a dot between them does not change the text -/
+theorem join_merge_adjacent (pre : List String) (a b : String) (post : List String) :
+    joinTokens (pre ++ a :: b :: post) = joinTokens (pre ++ (a ++ "." ++ b) :: post) := by
+  rw [← String.toList_inj, joinTokens_toList, joinTokens_toList]
+  simp only [List.map_append, List.map_cons, String.toList_append]
+  have : ".".toList = ['.'] := by decide
+  rw [this]
+  simpa using joinChars_merge (pre.map String.toList) a.toList b.toList (post.map String.toList)
+
+/-- **Recorded defect (known finding C07-join-ambiguous).** Two different fits with the same identifier:
+a model whose last token is a fixed string `a`, fitted under the unique tag `b`, and the same model with
+the string `a.b`, fitted without a tag, have different token lists but the same hashed text (reproduced on
+the real code by the harness on every run, with a second witness: the list of integers `[1, 0]` against
+the list `[1.0]` inside a fixed component). -/
+theorem fit_join_collision_refuted (s : PyVal) (m : Meta) (path k a b : String) (hk : skipKey k = false) :
+    tokens (fitVal s (.model m path [(k, .str a)]) (some b))
+        ≠ tokens (fitVal s (.model m path [(k, .str (a ++ "." ++ b))]) none)
+      ∧ joinTokens (tokens (fitVal s (.model m path [(k, .str a)]) (some b)))
+        = joinTokens (tokens (fitVal s (.model m path [(k, .str (a ++ "." ++ b))]) none)) := by
+  have e1 : tokens (fitVal s (.model m path [(k, .str a)]) (some b))
+      = (tokens s ++ ["Model", "cls", path, k]) ++ a :: b :: [] := by
+    simp [fitVal, tokens, tokensList, tokens_reflect, ctokens, ctokensAttrs, hk]
+  have e2 : tokens (fitVal s (.model m path [(k, .str (a ++ "." ++ b))]) none)
+      = (tokens s ++ ["Model", "cls", path, k]) ++ (a ++ "." ++ b) :: [] := by
+    simp [fitVal, tokens, tokensList, tokens_reflect, ctokens, ctokensAttrs, hk]
+  rw [e1, e2]
+  refine ⟨?_, join_merge_adjacent _ a b []⟩
+  intro he
+  have := congrArg List.length he
+  simp at this
+
+example : joinTokens ["Lst", "values", "1", "0", "k"] = joinTokens ["Lst", "values", "1.0", "k"] :=
+  join_merge_adjacent ["Lst", "values"] "1" "0" ["k"]
+example : tokenPieces ["vlib.P2", "a", "1.5"] = ["vlib", "P2", "a", "1", "5"] := by decide
+example : dotFree "lower_limit".toList = true := by decide
+
+/-! ## which settings identify a search: over the generated table (`AFModel/Generated/C07.lean`)
+
+The table is regenerated from the repository source before every build; the theorems below are about
+*every* row of it, so they are re-proved for whatever the source declares. -/
+
+open AF.Generated.C07
+
+/-- **Every identifying setting of every search class is sensitive**: changing it (to a value with other
+tokens, everything else equal) changes the tokens of the search. -/
+theorem every_identifying_setting_sensitive : ∀ row ∈ searchTable, ∀ f ∈ row.idf, ∀ (σ τ : String → PyVal),
+    tokens (σ f) ≠ tokens (τ f) → (∀ g, g ≠ f → σ g = τ g) → tokens (searchVal row σ) ≠ tokens (searchVal row τ) :=
+  fun row hr f hf σ τ hd hsame =>
+    AF.IdentSearch.search_field_sensitive row (AF.IdentSearch.table_fields_nodup row hr) f hf
+      (AF.IdentSearch.table_fields_visible row hr f hf) σ τ hd hsame
+
+/-- **No other setting is**: changing any setting that is not an identifying one (iterations per update,
+number of cores, name, path prefix, run settings …) leaves the tokens unchanged — for every search class. -/
+theorem no_other_setting_identifying : ∀ row ∈ searchTable, ∀ g ∈ row.others, ∀ (σ τ : String → PyVal),
+    (∀ f, f ≠ g → σ f = τ f) → tokens (searchVal row σ) = tokens (searchVal row τ) :=
+  fun row hr g hg σ τ hsame =>
+    AF.IdentSearch.search_tokens_only_identifying row σ τ
+      (fun f hf => hsame f (fun e => AF.IdentSearch.table_others_disjoint row hr g hg (e ▸ hf)))
+
+/-- two search classes never share their tokens (class names in the table are distinct, the name is the first token) -/
+theorem search_class_sensitive (r1 r2 : SearchRow) (σ τ : String → PyVal) (h : r1.name ≠ r2.name) :
+    tokens (searchVal r1 σ) ≠ tokens (searchVal r2 τ) := by
+  simp only [searchVal, tokens, ne_eq, List.cons.injEq, not_and]
+  intro e; exact absurd e h
+
+theorem search_class_names_distinct : (searchTable.map (·.name)).Nodup := AF.IdentSearch.table_names_nodup
+
+/-- the prior kinds of the composition model carry exactly the identifier fields the source declares -/
+theorem prior_kinds_match_source : ∀ k ∈ allKinds, priorTable.lookup k.className = some (priorFieldNames k) :=
+  AF.IdentSearch.prior_table_matches
+
+/-- … and the source declares no prior class the composition model does not know -/
+theorem prior_kinds_complete : priorTable.map (·.1) = ["GaussianPrior", "LogGaussianPrior", "LogUniformPrior", "UniformPrior"] :=
+  AF.IdentSearch.prior_table_complete
+
+example : (lookupRow "Drawer").map (·.idf) = some ["total_draws"] := by decide
+example : ∃ row ∈ searchTable, "nlive" ∈ row.idf ∧ "iterations_per_update" ∈ row.others := by decide
+example : tokens (.int 50) ≠ tokens (.int 51) := by decide
 
 end AF.C07
